@@ -2,7 +2,7 @@
 // C14: one public LoRa<ModelChip, _> API call from an arbitrary driver/chip state coupled by the
 // invariant I-phy, with a fault at a symbolic chip-call index and a symbolic IRQ script.
 use super::*;
-use crate::verif_kani_lora_phy_mock::{block_on, MockDelay};
+use crate::verif_kani_lora_phy_mock::{block_on, MockDelay, Uq};
 
 #[derive(Clone, Copy, PartialEq, Eq)]
 pub(crate) enum ChipMode {
